@@ -1,4 +1,4 @@
 From Coq Require Import Extraction ExtrOcamlBasic.
-From SV Require Import DatalogDefs.
+From SV Require Import DatalogDefs DatalogSem.
 Extraction Language OCaml.
-Extraction "datalog_model.ml" run_program value_eqb.
+Extraction "datalog_model.ml" run_program value_eqb program_ok program_det.
